@@ -2,6 +2,7 @@
 from __future__ import annotations
 
 import itertools
+from fractions import Fraction
 
 import jax
 import jax.numpy as jnp
@@ -10,7 +11,7 @@ import z3
 
 from .. import kit, pathx, zx
 from ..harness import Obligations, jsonable, tofloat, unq
-from ..trace import symbolic, sym, val_of
+from ..trace import lift, symbolic, sym, val_of
 
 ID = "C02"
 LEVEL = "model_checking"
@@ -85,6 +86,10 @@ def jobs(tier, seed):
     out.append(dict(name="special-int-initial-values", kind="special", variant="int_v0", devices=1, seed=seed, cost=5))
     # a second sweep on the same solver object with other values and another discount factor
     out.append(dict(name="special-second-call", kind="special", variant="second_call", devices=1, seed=seed, cost=8))
+    # the policy returned by solve() is greedy for the values it returns, whether the call converged or hit its limit
+    for solver in ("vi", "savi", "rvi", "pvi"):
+        for k in ((1, 2) if tier == "quick" else (1, 2, 3)):
+            out.append(dict(name=f"solve-returns-greedy-{solver}-k{k}", kind="solve", solver=solver, k=k, devices=1, seed=seed, cost=6 * k))
     for pname in ("forest", "de_moor", "hendrix", "mirjalili"):
         for dv in ([1] if tier == "quick" else [1, 2]):
             out.append(dict(name=f"shipped-{pname}-dev{dv}", kind="shipped", problem=pname, devices=dv, seed=seed, cost=30,
@@ -193,6 +198,8 @@ def run_job(job):
         return _run_shipped(job, ob)
     if job["kind"] == "special":
         return _run_special(job, ob)
+    if job["kind"] == "solve":
+        return _run_solve(job, ob)
     cfg = job["cfg"]
     S, A, E = cfg["S"], cfg["A"], cfg["E"]
     pb = kit.make_tab(cfg, seed)
@@ -269,6 +276,78 @@ def _run_conseq(job, ob, pb, solver, conc):
             ob.prove(f"shift[{i}]", pre, nC == zx.Z(new[i]) + zx.Z(gq) * c)
             ob.prove(f"contraction[{i}]", pre + [d >= 0] + [z3.And(V[k] - W[k] <= d, W[k] - V[k] <= d) for k in range(S)],
                      z3.And(zx.Z(new[i]) - nW <= zx.Z(gq) * d, nW - zx.Z(new[i]) <= zx.Z(gq) * d))
+    return ob.result()
+
+
+SOLVE_CFG = dict(S=3, A=2, E=2, bs=2)
+
+
+def solve_problem(seed, R=None, V0=None):
+    from ..tab import Tab
+    S, A, E = SOLVE_CFG["S"], SOLVE_CFG["A"], SOLVE_CFG["E"]
+    T, R0, P, V00 = kit.rand_tables(S, A, E, seed + 3)
+    return Tab(S, A, E, T=T, R=R0 if R is None else R, P=P, V0=V00 if V0 is None else V0)
+
+
+def _run_solve(job, ob):
+    """real solve(k) (real sweeps, real stopping rule, real extraction) with symbolic rewards, initial values and epsilon;
+    concrete probabilities and discount factor keep every branch condition linear"""
+    from .C08 import shadowed
+    name, k = job["solver"], job["k"]
+    S, A, E = SOLVE_CFG["S"], SOLVE_CFG["A"], SOLVE_CFG["E"]
+    gq = Fraction(1) if name == "rvi" else Fraction(1, 2)
+    eps = z3.Real("eps")
+    ex = pathx.Explorer(max_paths=200)
+    h = {}
+
+    def run():
+        pb = solve_problem(job.get("seed", 0))
+        with symbolic():
+            pb.R = sym("R", (S, A, E))
+            pb.V0 = sym("V0", (S,))
+            kw = dict(max_batch_size=SOLVE_CFG["bs"])
+            if name == "pvi":
+                kw.update(period=2)
+            if name != "rvi":
+                kw["gamma"] = float(gq)
+            solver = kit.make_solver(name, pb, **kw)
+            pathx.CUR.assume(eps > 0)
+            solver.epsilon = lift(eps)
+            solver._setup_convergence_testing()
+            st = solver.solve(k)
+            h["pb"] = pb
+            return dict(vals=val_of(st.values), pol=val_of(st.policy), it=st.info.iteration, R=val_of(pb.R), V0=val_of(pb.V0))
+    outs = []
+    with shadowed():
+        try:
+            for o in ex.explore(run):
+                outs.append(o)
+        except zx.Unsupported as e:
+            ob.inconclusive.append({"obligation": "path-exploration", "reason": str(e), "solver_s": 0})
+    pb0 = solve_problem(job.get("seed", 0))
+    Tidx = np.asarray(jax.vmap(jax.vmap(jax.vmap(pb0.state_to_index)))(pb0.T)).reshape(S, A, E)
+    asp = np.asarray(pb0.action_space)
+    for pi_, o in enumerate(outs):
+        if o.exc is not None:
+            from ..harness import exc_origin
+            if exc_origin(o.exc) == "harness":
+                ob.fail_harness(f"harness raised: {o.exc!r}")
+                continue
+            ob.prove(f"no-exception[path{pi_}]", o.pc, False, cex=lambda m, o=o: dict(kind="solve_exc", exc=repr(o.exc)))
+            continue
+        r = o.value
+        L = ConcreteL(Tidx, np.zeros((S, A, E)), np.asarray(pb0.P))
+        L.R = r["R"]
+        ob.reach(f"path{pi_}", o.pc)
+        Q = kit.q_values(L, [zx.to_real(v) for v in r["vals"]], gq)
+        B = [kit.zmax_list(row) for row in Q]
+        cex = lambda m, r=r: dict(kind="solve", solver=name, k=k, R=kit.model_array(m, r["R"]), V0=kit.model_array(m, r["V0"]), eps=zx.model_value(m, eps))
+        for i in range(S):
+            member, idx = kit.policy_row_index(list(r["pol"][i]), asp)
+            ob.prove(f"returned-policy-greedy[path{pi_},{i}]", o.pc, zx.land(member, zx.eq(kit.lookup(Q[i], idx), B[i])), cex=cex,
+                     margin=(kit.lookup(Q[i], idx), B[i], list(np.asarray(r["R"], dtype=object).flat) + list(r["V0"]), []),
+                     kind="policy returned by solve() is greedy for the values it returns")
+    ob.extra["paths"] = len(outs)
     return ob.result()
 
 
@@ -407,6 +486,37 @@ def replay(data):
     job = data["job"]
     if "error" in c:
         return False, c["error"]
+    if c.get("kind") in ("solve", "solve_exc"):
+        S, A, E = SOLVE_CFG["S"], SOLVE_CFG["A"], SOLVE_CFG["E"]
+        name, k = job["solver"], job["k"]
+        if c["kind"] == "solve_exc":
+            R, V0, e = None, None, 1e-3
+        else:
+            R, V0, e = np.array(tofloat(c["R"]), dtype=float), np.array(tofloat(c["V0"]), dtype=float), float(c["eps"])
+        pb = solve_problem(job.get("seed", 0), R=R, V0=V0)
+        kw = dict(max_batch_size=SOLVE_CFG["bs"], epsilon=e)
+        if name == "pvi":
+            kw.update(period=2)
+        if name != "rvi":
+            kw["gamma"] = 0.5
+        s = kit.make_solver(name, pb, **kw)
+        try:
+            st = s.solve(k)
+        except Exception as ex:
+            return True, f"solve({k}) raised {type(ex).__name__}: {ex}"
+        if c["kind"] == "solve_exc":
+            return False, "no exception"
+        g_ = 1.0 if name == "rvi" else 0.5
+        Tidx = np.asarray(jax.vmap(jax.vmap(jax.vmap(pb.state_to_index)))(pb.T)).reshape(S, A, E)
+        Vr = np.asarray(st.values, dtype=float)
+        Rr, P = np.asarray(pb.R, dtype=float), np.asarray(pb.P, dtype=float)
+        Q = (P * (Rr + g_ * Vr[Tidx])).sum(-1)
+        asp = np.asarray(pb.action_space)
+        pol = np.asarray(st.policy)
+        rows = [int(np.where((asp == pol[j]).all(1))[0][0]) for j in range(S)]
+        tol = kit.REPLAY_RTOL * 100 * max(np.abs(Rr).max(), np.abs(Vr).max(), 1e-300)
+        bad = any(Q[j].max() - Q[j, rows[j]] > tol for j in range(S))
+        return bool(bad), f"{name} solve({k}) stopped at iteration {st.info.iteration}: returned policy rows {rows}, Q(returned values) {Q.tolist()}"
     if c.get("kind") in ("special", "special_exc"):
         pb, cfg = special_problem(c["variant"], job.get("seed", 0))
         S, A, E = cfg["S"], cfg["A"], cfg["E"]
